@@ -115,7 +115,21 @@ func runC07(c *Ctx) {
 				}
 				return false
 			})
-			iv := PathQuery{Fn: fn, Start: cl, Edge: errNonNil, Weight: func(i2 ssa.Instruction) (int, int) {
+			// ... and likewise at errors.Is(err, io.EOF)
+			errIsEOF := RestrictBool(func(v ssa.Value) bool {
+				c2, ok := v.(*ssa.Call)
+				if !ok || !MatchCC(&c2.Call, Spec{"errors", "", "Is"}) || len(c2.Call.Args) != 2 {
+					return false
+				}
+				u, ok := c2.Call.Args[1].(*ssa.UnOp)
+				if !ok || u.Op != token.MUL {
+					return false
+				}
+				g, ok := u.X.(*ssa.Global)
+				return ok && g.Name() == "EOF" && g.Pkg.Pkg.Path() == "io" && Strip(c2.Call.Args[0]) == errv
+			}, true)
+			both := func(from, to *ssa.BasicBlock) bool { return errNonNil(from, to) && errIsEOF(from, to) }
+			iv := PathQuery{Fn: fn, Start: cl, Edge: both, Weight: func(i2 ssa.Instruction) (int, int) {
 				if isInspect(i2) {
 					return 1, 1
 				}
